@@ -61,9 +61,25 @@ class Run(PropRunStream):
     quick_cases = 420
     quick_seconds = 55
     p_interrupt = 0.5
+    p_both = 0.05               # a keyboard interrupt in a run whose reporting backend fails (C11 judges the error; here: the skips)
     corpus = [witness("D2 AbortSuite raised in setup_test"), witness("D2 AbortSuite raised in teardown_test"),
-              witness("D2 AbortSuite raised in a test-scoped fixture"), witness("(control) AbortSuite"), witness("D11 ")] + W2.CONTROLS2
+              witness("D2 AbortSuite raised in a test-scoped fixture"), witness("(control) AbortSuite"), witness("D11 "),
+              W2.ABORT_ARGUMENTS, W2.PERTHREAD_FIXTURE_ABORTS_SUITE, W2.PERTHREAD_FIXTURE_ABORTS_ALL, W2.FAULT_THEN_INTERRUPT] + W2.CONTROLS2
+
+
+class RunPT(PropRunStream):
+    """per-thread fixtures whose setup fails — mostly by raising AbortSuite / AbortAllTests — at their first use by a worker,
+    inside the test task (`TestTask._prepare_test_args`), while tests that do not use them are still to start"""
+    name = "C08.run.perthread"
+    prop = "C08"
+    profile = "perthread-abort"
+    oracles = ("C08",)
+    quick_cases = 110
+    quick_seconds = 14
+    thorough_cases = 4000
+    p_interrupt = 0.1
+    corpus = [W2.PERTHREAD_FIXTURE_ABORTS_SUITE, W2.PERTHREAD_FIXTURE_ABORTS_ALL]
 
 
 def streams(ctx):
-    return [Sched(), Run()]
+    return [Sched(), Run(), RunPT()]
